@@ -148,12 +148,14 @@ CHECKS["C13"] = dict(
 CHECKS["C09"] = dict(
     engine="symx",
     technique="exploration of host histories by explorer choice points through the real SDK, assembler, NV transpiler and Executor (shape-driven); outcomes / Bell indices as z3 integers",
-    text="Every history of 3 (thorough 4) operations + final flush over {new qubit, gate, reset, measure in place / destructively, free, "
-         "flush, create_keep, recv_keep, sequential keep with post routine, EPR contexts} for qubit budgets 2,3 (thorough 1,2,3,5), generic "
-         "hardware, NV hardware config and NV + transpiler, with the host keeping at most budget (NV: budget-1) qubits alive: no emitted "
+    text="Every history of 3 (thorough 4) operations + final flush over {new qubit, gate, cnot, reset, measure in place / destructively, free, "
+         "flush, create_keep, recv_keep, the same with a fidelity limit (retry loop, symbolic duration), sequential keep with post routine, EPR "
+         "contexts} for qubit budgets 2,3 (thorough 1,2,3,5), plus every history of 6 (thorough 7) operations over {new, measure, gate, cnot, "
+         "flush} on the NV configurations, generic hardware, NV hardware config and NV + transpiler, with the host keeping at most budget (NV: budget-1) qubits alive: no emitted "
          "instruction faults, after every flush active_qubits = controller's allocated virtual qubits = the handles the host still holds, "
-         "and a freed ID is handed out again. Histories that contain free() or sequential/context EPR operations are attributed to two "
-         "recorded findings; all other histories must be clean.",
+         "and a freed ID is handed out again; gates look their qubit up like a real back end (a gate on an unallocated virtual qubit is a "
+         "fault). Histories that contain free() or sequential/context EPR operations are attributed to two recorded findings, a carbon-carbon "
+         "gate with the electron unallocated to a third; all other histories must be clean.",
     note="Shape-driven: exhaustive over histories inside the bound; the solver only keeps data-dependent branches open. Coarse known-finding "
          "attribution (by operation kinds in the history) is stated in DESIGN.md. Trusted: NetExecutor harness, in-order delivery.",
     design="3/C09")
@@ -200,8 +202,9 @@ CHECKS["C19"] = dict(
     text="The real function runs on z3 Reals for the angle (through r = angle mod 2 pi in [0, 2 pi], closed because the float remainder can "
          "round up to 2 pi) and the tolerance; floor/log2/int are stubs with stated contracts; every path (exponent sequence x "
          "simplification steps, partitioned by the first two exponents over the cores) ends with z3 deciding 1<=n<=255, 0<=d<=255 and "
-         "|sum n/2^d - r/pi| <= tol. Quick: tol in [0.01, 0.1] symbolic, the SDK default 1e-4 and a 1e-9 slice; thorough: all tol in "
-         "[1e-9, 0.1]. The builder is checked to emit one rotation per step (symbolic steps). Counterexamples are replayed with real "
+         "|sum n/2^d - r/pi| <= tol. Exhaustive for tol in [1e-4, 0.1] (quick) / [1e-5, 0.1] (thorough); below that only slices: single-step "
+         "slices at 1e-9 (exhaustive; they also decide that only steps the format cannot hold are dropped) and time-boxed, non-exhaustive "
+         "'hunting' slices at 1e-7..1e-6 that need four steps. The builder is checked to emit one rotation per step (symbolic steps). Counterexamples are replayed with real "
          "floats on the unstubbed function.",
     note="Trusted: z3; the binary64 model of vf/symreal.py (exact power-of-two scaling, Sterbenz subtraction, floor/log2 contracts with "
          "2^-50 slack). 'Within tolerance' is read as the implementation applies it (to angle/pi). At most 8 loop iterations (checked).",
